@@ -8,7 +8,7 @@ VERIF = os.path.dirname(os.path.dirname(os.path.abspath(__file__)))
 CLAIMED = {
  "C10": ("runtime monitoring: hooked-schedule monitor - the real FollowFileIterator reads a real file while the follow_eof hook performs the next scripted append / idle poll exactly when the reader saw EOF; oracle over the delivered line sequence; small-scope exhaustive + random schedules, writer threads and CLI in thorough",
          "Exploration with an exhaustive small scope. Every schedule (content, cut set into appends down to single bytes and inside multi-byte characters, idle polls, BufReader capacity, start offset) is executed against the real iterator; delivered lines must equal the newline-terminated lines of the appended content, once, in order, byte for byte. All contents of <= 4 characters over {a, e-acute, emoji, LF} x all cut sets x capacities {1,2,4,8192} are enumerated in every run; thorough adds real writer threads (distinct interleavings recorded) and `sqlgrep -f --head` as a subprocess.",
-         "Trusted: tmpfs append visibility; the hook fires at the reader's EOF retry (the only point where a poll can observe a new append). Start-at-end semantics are exercised at iterator level (seek before construction).",
+         "Trusted: tmpfs append visibility; the hook fires at the reader's EOF retry (the only point where a poll can observe a new append). Start-at-end semantics are exercised at iterator level (seek before construction). Lines of 8 KiB..2 MiB run in every quick run (..16 MiB thorough).",
          "DESIGN.md §7 C10"),
  "C12": ("runtime monitoring: reference-model monitor (harness line splitter) at the executor boundary + relational monitor (run over [f1..fk] vs run over the concatenation) + fault injection of invalid UTF-8 lines",
          "Exploration. FileExecutor is run over generated files (LF/CRLF/empty/unterminated/long lines, 1-5 files); records and statistics.total_lines must equal the harness' own splitting of the bytes; SELECT / aggregate / join statements over split files must print exactly what they print over the concatenation; a line that is not UTF-8 (main or joined file) must not silently drop later lines.",
@@ -16,7 +16,7 @@ CLAIMED = {
          "DESIGN.md §7 C12"),
  "C13": ("runtime monitoring: reference-grammar monitor - generator-owned ASTs printed with minimal parentheses, parse() result compared structurally (model::ExpressionTree -> harness AST); exhaustive operator-pair enumeration + random trees",
          "Exploration with an exhaustive operator-pair scope. The harness prints its own AST with minimal parentheses under the standard grammar stated in the property and requires parsing::parse to recover exactly that AST; every (outer operator, inner operator, operand position) triple over 20 operator shapes, negative operands after every binary operator and one-element IN lists are enumerated in every run, plus random trees to depth 6 with redundant parentheses.",
-         "Trusted: the reference precedence table of the property statement (IS/IN at comparison level, left associativity) and the harness' minimal-parenthesis printer. The structural converter ignores nothing but maps regex_matches/regexp_matches to one name.",
+         "Trusted: the reference precedence table of the property statement (IS/IN at comparison level, left associativity) and the harness' minimal-parenthesis printer. The structural converter ignores nothing but maps regex_matches/regexp_matches to one name. Each tree is also rendered without the optional blanks (`xs[1]-1`).",
          "DESIGN.md §7 C13"),
  "C14": ("runtime monitoring: crash/abort monitor (catch_unwind + panic-site signature) over generated, mutated, truncated and hostile statement texts; error-location oracle",
          "Exploration. parse and parse_into_tree are executed under a panic monitor on an 8 MiB stack over random Unicode, token soups, generated valid statements with one token deleted/duplicated/swapped/replaced, every character prefix of generated statements, a corpus of malformed definitions/aggregates/numbers and bracket nesting up to the documented bound 256; every Err must carry a location inside the text and extract_near must return. Held = no panic/abort/hang and no out-of-text location on the executions listed in the evidence.",
@@ -24,23 +24,23 @@ CLAIMED = {
          "DESIGN.md §7 C14"),
  "C16": ("runtime monitoring: law checker on sqlgrep::model::Value (==, cmp, partial_cmp, Hash under SipHash and FNV) exhaustive over all pairs and triples of a value pool + consumer-level monitors (GROUP BY, DISTINCT, COUNT(DISTINCT), array_unique, MIN/MAX, JOIN) against the reference equality",
          "Exploration with an exhaustive pool. For every anchor value of a ~95-value pool (NULL, i64/f64 extremes, -0.0, NaN, infinities, nested arrays, equal instants and intervals, empty strings) all pairs and all triples are checked for eq<=>cmp, antisymmetry, partial_cmp==cmp, operator agreement, hash agreement, transitivity, INT/REAL numeric order and the per-type value order; random nested triples; consumer level: the groups / distinct rows / joined pairs the engine forms over REAL keys incl. -0.0, NaN, inf (small and >128-element sets) must be exactly the reference equality classes.",
-         "Trusted: the reference equality (numbers by value, -0.0 = 0.0, NaN equal to itself only). One open finding (INT vs REAL ordered by variant) is listed in KNOWN_FINDINGS.txt and masks exactly that signature.",
+         "Trusted: the reference equality (numbers by value, -0.0 = 0.0, NaN equal to itself only). The six WHERE operators are evaluated by the engine on every pair (trichotomy, derived operators, agreement with the value order; a timestamp against the same instant written as text). One open finding (INT vs REAL ordered by variant) is listed in KNOWN_FINDINGS.txt and masks exactly that signature.",
          "DESIGN.md §7 C16"),
  "C17": ("runtime monitoring: round-trip monitor - OutputPrinter::print is called with result rows the harness holds and the printed records are decoded and compared cell by cell; FileExecutor end to end in all formats",
          "Exploration. ResultRows of every value type (hostile text, 64-bit extremes, subnormal and huge REALs, arrays of 0-200 elements, NULLs) are printed in json / csv / text with single_result on and off over 1-4 consecutive results; #records = #rows in order, JSON keys = column names in order and values recover the row exactly, CSV has one header first and one field per column, text lists name: value pairs; an end-to-end kind pairs FileExecutor output with the engine's own rows.",
-         "Trusted: serde_json's decoder; timestamps/intervals are compared with the value's own text form; CSV/text content checks only for delimiter-free values (as the property states).",
+         "Trusted: serde_json for the structure of printed records (REALs are judged on the printed token with std's correctly rounding parser); the harness' own rendering of timestamps (years 0..9999) and non-negative intervals; REAL text forms must be the value correctly rounded at the shown precision (exact decimal arithmetic); CSV/text content checks only for delimiter-free values (as the property states).",
          "DESIGN.md §7 C17"),
  "C18": ("runtime monitoring: differential monitor across fresh processes (fresh SipHash keys) and in-process repetitions; byte comparison of everything printed; canary HashMap proves the seeds varied",
          "Exploration. Each case (wide `*`, 4-8 aggregates over 20-60 groups, join buckets with duplicates, HAVING, COUNT(DISTINCT), array_unique, 1-8 unrelated tables, all formats) runs in 5 fresh processes and 3 times in-process at the executor boundary; all outputs must be byte-identical. The run is inconclusive unless >= 2 distinct canary iteration orders were observed.",
-         "Trusted: nothing but byte comparison. now() is never generated.",
+         "Trusted: nothing but byte comparison. now() is never generated. Two cases of 5000-9000 lines (array_unique(array_agg), COUNT(DISTINCT), hundreds of groups) run in every quick run; tables whose names differ only in letter case and IN lists with entries that cannot be compared are generated.",
          "DESIGN.md §7 C18"),
  "C19": ("runtime monitoring: hooked-schedule monitor - the running flag is cleared by the batch_line hook at every line index of the main loop and of the joined-file loader and by the printer after every record index; oracle = prefix relation against uninterrupted runs over exactly the consumed lines; interrupter thread and SIGINT to the CLI in thorough",
          "Exploration, exhaustive over interrupt points per generated case. For plain / DISTINCT / join / aggregate statements over 1-3 files every interrupt point is tried; the result must be Ok, total_lines must equal the lines consumed before the clear (at most 10 more joined-file lines), and the printed output must equal an uninterrupted run over exactly those lines.",
-         "Trusted: 'consumed' = presented to the query (statistics.total_lines); one line per remaining file may be fetched and discarded by the reader.",
+         "Trusted: 'consumed' = presented to the query (statistics.total_lines; lines that are not valid UTF-8 are skipped uncounted); one line per remaining file may be fetched and discarded by the reader. Also: the flag already cleared when execute() is entered, and the follow-mode executor interrupted while waiting at end of file (later lines must be neither evaluated nor read on).",
          "DESIGN.md §7 C19"),
  "C20": ("runtime monitoring: metamorphic monitor - layout / case / comment / semicolon / clause-order variants generated between harness-owned tokens; Debug rendering of the parsed Statement must equal the base's",
          "Exploration, clause permutations exhaustive per statement. 6 random variants per base (case flips of case-insensitive tokens, whitespace runs incl. Unicode spaces, blank removal where tokens cannot run together, -- comments, trailing semicolon) plus every permutation of the present JOIN/WHERE/GROUP BY/HAVING/LIMIT clauses; each must parse to a Statement whose Debug rendering equals the base's.",
-         "Trusted: the harness' rule for when two tokens may touch. A base text that does not parse makes the case inconclusive (C13/C14).",
+         "Trusted: the harness' rule for when two tokens may touch. A base in canonical spelling that is rejected while a re-spelling is accepted is a violation; rejected in every spelling = inconclusive (C13/C14). String literals are checked directly: the escaped text must come out of the lowered statement unchanged at seven positions.",
          "DESIGN.md §7 C20"),
 }
 
@@ -48,7 +48,7 @@ CLAIMED = {
 CLAIMED.update({
  "C01": ("runtime monitoring: reference-model monitor - the engine's SELECT * rows are compared column by column with an independent reference extraction (group->column mapping, typed literal grammars, modifiers, arrays, multi-group timestamps) over generated definitions and constructively built hostile lines",
          "Exploration. Generated CREATE TABLE texts (1-3 capture/split patterns from a template grammar, 1-7 columns of every source kind, type and modifier) and 8 lines each (type-aware pools: 64-bit extremes, float spellings, month names, out-of-range date parts, padding; duplicated instances, near misses, noise); each engine row must lie in the per-column accept set and exist iff admission allows it.",
-         "Trusted: the regex crate for which text a group captured; std's f64 parser for the value of a text the model's grammar accepted; TZ=UTC. Accept sets where the statement is silent are listed in DESIGN Appendix A and Amendments.",
+         "Trusted: the regex crate for which text a group captured; std's f64 parser for the value of a text the model's grammar accepted; chrono itself for which non-canonical timestamp spellings are literals (the canonical spelling and the calendar are the harness' own); TZ=UTC. Several modifiers on one column are declared through the library API. Accept sets where the statement is silent are listed in DESIGN Appendix A and Amendments.",
          "DESIGN.md §7 C01"),
  "C02": ("runtime monitoring: generator-as-oracle monitor - JSON documents are owned by the harness (own writer, number spellings, escapes, duplicate keys), expected values are read off the generated tree, never parsed",
          "Exploration. Tables with 1-6 JSON-path columns (paths chosen by walking a generated document, every type, CONVERT/DEFAULT/NOT NULL) plus sometimes a regex column, 6 lines each incl. non-documents; every engine row is checked against per-column accept sets.",
@@ -75,7 +75,7 @@ CLAIMED.update({
          "Trusted: line provenance of rows is taken from per-line execution of the unlimited statement.",
          "DESIGN.md §7 C07"),
  "C08": ("runtime monitoring: relational monitor - SELECT DISTINCT output vs the same statement without DISTINCT filtered to first occurrences under the reference tuple equality; batch result and every incremental refresh",
-         "Exploration. Select, join and aggregate DISTINCT (with/without HAVING), tuples differing by NULL / one column / -0.0 vs 0.0 / recurring after long gaps, large-set family with 150-400 distinct tuples.",
+         "Exploration. Select, join and aggregate DISTINCT (with/without HAVING), tuples differing by NULL / one column / -0.0 vs 0.0 / recurring after long gaps, large-set family with 150-400 distinct tuples, huge sets of 2^10..2^17 distinct rows in every quick run (..2^20 thorough), hundreds of lines over up to 300 keys in one case of 300.",
          "Trusted: reference tuple equality (NULL = NULL, numbers by value). NaN-containing outputs are skipped.",
          "DESIGN.md §7 C08"),
  "C09": ("runtime monitoring: crash monitor at the executor boundary (catch_unwind, overflow checks on, panic-site signatures) over hostile data and statements in all output formats; one subprocess per time zone, ASan and valgrind in thorough",
